@@ -25,19 +25,28 @@ CLAIM = {
           'alone against the generator\'s ground truth.'),
  'note': ('Trusted: Lean kernel; hand-written model as far as compared on the run; physical record layer (C05) and '
           'numeric decoding of representation codes (C07) are used, not verified, here: channel values are compared as '
-          'raw words decoded on both sides by the same RepCode.readBytes. X values are integers (float64 exact).'),
+          'raw words decoded on both sides by the same RepCode.readBytes. In the Lean model X values are integers; '
+          'floating point X axes are checked by the oracle and a float64 reference transcription only; the dtype of the '
+          'returned matrix and implied-X vector (float64) is checked on every load.'),
  'technique': 'Lean 4 proof (structural induction, omega, decide) + model-implementation correspondence',
  'design_ref': 'DESIGN.md section 6 C06',
 }
 RULE = ('LIS files built from random abstract log-pass descriptions (1..6 channels of rep codes 49/50/56/66/68/70/73/77/79 '
         'with samples and bursts, explicit or indirect X, up/down/time, regular / short-last / irregular frames per record, '
         'type 0 and type 1 passes, interleaved passes, delimiters, tables, other records) under random physical layouts '
-        '(record length 16..65535, trailers, TIF markers); per log pass a sequence of 2-5 loads with random slices and '
+        '(record length 16..65535, trailers, TIF markers); plus single-pass files with FLOATING POINT X axes (X word in rep code 68/50/49, spacing 0.1, 0.15, 1/3, 0.1524 ... at large X, implied and explicit); per log pass a sequence of 2-5 loads with random slices and '
         'channel subsets on the same LogPass object; plus an exhaustive small scope of FrameSetPlan.genEvents. A load case '
         'is non-trivial when it selects >= 2 frames from > 1 record or a proper channel subset; distinct by '
         '(channel shapes, frames per record, slice, channel list).')
-ASSUMPTIONS = ['X axis values and frame spacing are integers below 2**23 in magnitude (float64 arithmetic exact); frame '
-               'spacing units equal depth units (no Units.convert)',
+ASSUMPTIONS = ['model side: X axis values and frame spacing are integers below 2**23 in magnitude (float64 arithmetic exact, the '
+               'Lean model keeps X in Int). Floating point X axes (rep codes 68/50/49, fine and non-dyadic spacings such as '
+               '0.1, 0.15, 1/3 at X of 1000..100000) are ORACLE-ONLY: the implied X of every loaded frame is compared (a) '
+               'with the exact rational "recorded X of the frame\'s record + offset*spacing" within (frames+4)*2**-44 relative '
+               '(a few float64 ulp per operation, 2**20 below single precision) and (b) bit for bit with a Python '
+               'transcription of the code\'s float64 expression (repeated addition X[k]=X[k-1]+step*spacing; stream '
+               'implied_x_float); with non-dyadic spacings a sub-selection is NOT bit-identical to the same rows of the full '
+               'load even in the unchanged code (x+0.1+0.1 != x+0.2), so that comparison is made through (a)',
+               'frame spacing units equal depth units (no Units.convert)',
                'slice members and channel indices are non-negative; slice stop within the frame count is judged, '
                'beyond it only compared with the model',
                'dipmeter representation codes 130/234 and zero-size / zero-sample channels are not generated',
@@ -178,6 +187,8 @@ def impl_load(lp, f, stream, sl, chans):
     out['M'] = [[float(v) for v in fs.frames[i]] for i in range(fs.numFrames)]
     out['X'] = None if fs._indrXVector is None else [float(v) for v in fs._indrXVector]
     out['Xapi'] = [float(fs.xAxisValue(i)) for i in range(fs.numFrames)]
+    out['dtypes'] = (str(fs.frames.dtype), None if fs._indrXVector is None else str(fs._indrXVector.dtype),
+                     type(fs.xAxisValue(0)).__name__ if fs.numFrames else None)
     # per (sample, burst) access of the first and last loaded frame: {(row, ch): [[value per burst] per sample]}
     cells = {}
     for i in sorted({0, fs.numFrames - 1}) if fs.numFrames else []:
@@ -294,6 +305,32 @@ def f7_rule(lp, frames, step):
     return out, cls
 
 
+def ref_implied_x(lp, frames, step):
+    """Transcription of the float64 arithmetic of LogPass.setFrameSet / FrameSet for the implied X vector:
+    X[first frame of a record] = record X word (offset 0) or (X just read | previous loaded X) + offset*spacing;
+    then X[k] = X[k-1] + step*spacing, every product and sum rounded to float64 (repeated addition)."""
+    sp = float(lp.step_x)
+    out, groups = [], []
+    for fr in frames:
+        r, off = lp.record_of(fr)
+        if groups and groups[-1][0] == r:
+            groups[-1][1].append(off)
+        else:
+            groups.append((r, [off]))
+    for gi, (r, offs) in enumerate(groups):
+        xrec = float(lp.x[lp.rec_first[r]])
+        s = offs[0]
+        if s == 0:
+            x = xrec
+        else:
+            x = (xrec if gi == 0 else out[-1]) + s * sp
+        out.append(x)
+        for _ in offs[1:]:
+            x = x + step * sp
+            out.append(x)
+    return out
+
+
 def oracle_load(ctx, RepCode, bf, pi, sl, chans, res, case, prior_bad_ctor=False):
     """the property on one load: sub-matrix of the generated values, X of every frame, reads inside the data records"""
     from gen.lislog import RC_SIZE
@@ -339,18 +376,37 @@ def oracle_load(ctx, RepCode, bf, pi, sl, chans, res, case, prior_bad_ctor=False
                 break
     if bad:
         return ctx.fail(case, bad)
+    # documented storage: float64 matrix, float64 implied-X vector (FrameSet.NUMPY_DATA_TYPE)
+    dt = res.get('dtypes')
+    if dt and (dt[0] != 'float64' or (lp.indirect and dt[1] != 'float64') or (not lp.indirect and dt[1] is not None)
+               or (dt[2] is not None and dt[2] not in ('float64', 'float'))):
+        return ctx.fail(case, 'array types (matrix, implied X vector, xAxisValue) = %s, documented float64' % (dt,))
     # X axis of every loaded frame
     xs = res['Xapi']
-    want_x = [float(lp.x[fr]) for fr in frames]
+    step = (sl[2] or 1) if sl else 1
+    if lp.float_x and lp.indirect and chans != [] and res['X'] is not None:
+        # model side for floating point X: the Python transcription of the code's float64 expression (bit exact)
+        ctx.corr('implied_x_float', case, [v.hex() for v in res['X']], [v.hex() for v in ref_implied_x(lp, frames, step)])
+    if lp.float_x:
+        # recorded X of the frame's record + offset * spacing, exactly (Fractions); float64 arithmetic of the code may be
+        # off by a few ulp per operation -- far below single precision
+        def close(a, b):
+            return abs(Fraction(a) - b) <= Fraction(len(frames) + 4, 2 ** 44) * max(1, abs(b))
+        same = lambda a, b: close(a, b)
+    else:
+        same = lambda a, b: a == float(b)
+    want_x = [lp.x[fr] for fr in frames]
     finding = None
-    if xs != want_x:
-        dev = [i for i, (a, b) in enumerate(zip(xs, want_x)) if a != b]
-        detail = 'X of loaded frame %d (frame %d): got %s, true %s' % (dev[0], frames[dev[0]], xs[dev[0]], want_x[dev[0]])
+    dev = [i for i, (a, b) in enumerate(zip(xs, want_x)) if not same(a, b)]
+    if dev or len(xs) != len(want_x):
+        i0 = dev[0] if dev else 0
+        detail = 'X of loaded frame %d (frame %d): got %r, recorded X + offset*spacing = %r' % (
+            i0, frames[i0] if frames else -1, xs[i0] if i0 < len(xs) else None, float(want_x[i0]) if want_x else None)
         if lp.indirect and chans == []:
             finding = F_EMPTY     # no channel selected: no event is generated, the implied X vector stays uninitialised
-        elif lp.indirect:
-            rule, cls = f7_rule(lp, frames, (sl[2] or 1) if sl else 1)
-            if all(cls[i] and xs[i] == float(rule[i]) for i in dev) and (sl is not None and (sl[2] or 1) > 1):
+        elif lp.indirect and dev:
+            rule, cls = f7_rule(lp, frames, step)
+            if all(cls[i] and same(xs[i], rule[i]) for i in dev) and step > 1:
                 finding = F_STEPPED
         ctx.fail(case, detail, finding=finding)
         if finding is None:
@@ -418,6 +474,14 @@ def oracle_index(ctx, bf, idx, case):
             return ctx.fail(case, 'log pass at %d: %d frames, true %d' % (e.tell, L.totalFrames, lp.total))
         if lp.total and float(L.xAxisFirstVal) != float(lp.x[0]):
             return ctx.fail(case, 'log pass at %d: first X %s, true %s' % (e.tell, L.xAxisFirstVal, lp.x[0]))
+        if lp.float_x and lp.total > 1 and sum(1 for n in lp.fpr if n) > 1:
+            # (X of last record - X of first record) / (frames before the last record), continued to the last frame
+            r_last = max(r for r, n in enumerate(lp.fpr) if n)
+            xl = lp.x[lp.rec_first[r_last]]
+            want_last = xl + (lp.fpr[r_last] - 1) * (xl - lp.x[0]) / (lp.total - lp.fpr[r_last])
+            got_last = L.xAxisLastVal
+            if got_last is None or abs(Fraction(float(got_last)) - want_last) > Fraction(1, 10 ** 9) * max(1, abs(want_last)):
+                return ctx.fail(case, 'log pass at %d: last X %s, from the recorded X values %s' % (e.tell, got_last, float(want_last)))
         if lp.total > 1 and lp.evenly_spaced and sum(1 for n in lp.fpr if n) > 1:
             if L.xAxisLastVal is None or float(L.xAxisLastVal) != float(lp.x[-1]):
                 return ctx.fail(case, 'log pass at %d: last X %s, true %s' % (e.tell, L.xAxisLastVal, lp.x[-1]))
@@ -651,6 +715,17 @@ def run(ctx):
         reps = ctx.lean(lines)
         for (fd, ld), rep in zip(chunk, reps):
             run_case(ctx, mods, fd, ld, model_reply=rep)
+    # ---------------- floating point X axes (oracle + float64 reference transcription; the Lean model keeps X integral)
+    nfloat = ctx.n(500, 5000)
+    for k in range(nfloat):
+        items = []
+        if rng.random() < 0.5: items.append({'k': 'fh', 'tag': 'F'})
+        items.append({'k': 'lp', 'lp': lislog.random_float_logpass_desc(rng, data_type=rng.choice([0, 0, 1]))})
+        if rng.random() < 0.5: items.append({'k': 'ft', 'tag': 'F'})
+        fdesc = {'items': items, 'layout': lislog.random_layout(rng)}
+        run_case(ctx, mods, fdesc, random_loads(rng, lislog.build_file(fdesc), nmax=6))
+    ctx.count('float_x_file_cases', nfloat)
+    ctx.sample({'op': 'file', 'float_x': True, 'lp': {k2: v for k2, v in fdesc['items'][-1 if fdesc['items'][-1]['k'] == 'lp' else -2].get('lp', {}).items() if k2 in ('indirect', 'depth_rc', 'x0', 'spacing_word', 'fpr', 'up_down')}})
     ctx.sample({'op': 'file', 'items': [it['k'] for it in cases[1][0]['items']], 'layout': cases[1][0]['layout'], 'loads': cases[1][1][:3]})
     ctx.sample({'op': 'file', 'items': [it['k'] for it in cases[-1][0]['items']], 'layout': cases[-1][0]['layout'], 'loads': cases[-1][1][:3]})
     ctx.sample({'op': 'plan', 'case': pcs[len(pcs) // 2]})
